@@ -3,7 +3,7 @@
    projected models against the specification [shape]. *)
 From Coq Require Import ZArith List Bool String Arith.
 From FrameModel Require Import Num.QcTac PB.Expr PB.Cnf PB.Amo PB.Robdd PB.Codify PB.Sat Cases.Cmp Cases.CmpC07
-  RectSearch.Coords RectSearch.Names RectSearch.Encode RectSearch.Shapes.
+  RectSearch.Coords RectSearch.Names RectSearch.Encode RectSearch.Registry RectSearch.Shapes.
 Import ListNotations.
 Local Open Scope nat_scope.
 
@@ -22,7 +22,8 @@ Record c08_obs := mkObs8 {
   o_sat : bool;                  (* the solver found a model *)
   o_true : list var;             (* the variables that are 1 in SATManager.model *)
   o_cost1 : Z;                   (* first component of the returned pair *)
-  o_rects : list (option box)
+  o_rects : list (option box);
+  o_vtable : list var            (* SATManager.vtable[1:]: the registered names in order, names mapped *)
 }.
 
 Definition coords_check (inp : problem) (o : c08_obs) : bool :=
@@ -40,10 +41,12 @@ Definition result_eqb (r : result) (sat : bool) (c1 : Z) (rs : list (option box)
 Definition c08_check (mode : border_mode) (inp : problem) (k : nat) (factor ratio : Qc) (bound : Z)
     (m0 : memory) (o : c08_obs) : bool :=
   coords_check inp o &&
-  match encode mode inp k factor ratio bound m0 with
+  (* [encode_reg] = [encode] with the variable registrations (Registry.encode_reg_encode) *)
+  match encode_reg mode inp k factor ratio bound m0 with
   | None => o_keyerror o
   | Some (_, s) =>
       negb (o_keyerror o) && leqb (leqb lit_eqb) (clauses s) (o_clauses o) &&
+      leqb var_eqb (vtable s) (o_vtable o) &&
       result_eqb (result_of inp k factor ratio
                     (if o_sat o then Some (fun v => existsb (var_eqb v) (o_true o)) else None))
                  (o_sat o) (o_cost1 o) (o_rects o)
